@@ -26,6 +26,8 @@ type C08Case struct {
 	ShareFrom int        `json:"sharefrom,omitempty"`
 	ShareInto int        `json:"shareinto,omitempty"`
 	Muts      []CloneMut `json:"muts"`
+	Build     int        `json:"build,omitempty"`   // construction-route seed (0 = Add/Set)
+	Derived   int        `json:"derived,omitempty"` // >0: every Derived-th nested container is a user-defined derived type
 }
 
 var cloneMutOps = []string{"add", "insert", "replace", "delete", "pop", "clear", "reverse", "sort", "set", "unset", "oclear", "settf", "unsettf"}
@@ -46,6 +48,12 @@ func GenC08(t *rapid.T) *C08Case {
 		}
 	}
 	c := &C08Case{Root: root}
+	if drawBool(t, "variant") {
+		c.Build = 1 + genRaw(t)
+	}
+	if drawInt(t, 0, 4, "derived") == 0 {
+		c.Derived = drawInt(t, 1, 3, "every")
+	}
 	if drawInt(t, 0, 4, "share") == 0 {
 		c.Share, c.ShareFrom, c.ShareInto = true, genRaw(t), genRaw(t)
 	}
@@ -60,6 +68,43 @@ func GenC08(t *rapid.T) *C08Case {
 		c.Muts = append(c.Muts, m)
 	}
 	return c
+}
+
+// buildDerived builds the tree with every `every`-th nested container wrapped
+// in a user-defined derived type (registered with Init), as users of the
+// "derived structures" feature store them inside plain containers.
+func buildDerived(v V, every int, counter *int, isRoot bool) any {
+	switch v.K {
+	case KList:
+		l := at.NewList()
+		for _, e := range v.L {
+			l.Add(buildDerived(e, every, counter, false))
+		}
+		if !isRoot {
+			*counter++
+			if *counter%every == 0 {
+				d := &DL1{List: l}
+				d.Init(d)
+				return d
+			}
+		}
+		return l
+	case KObject:
+		o := at.NewObject()
+		for _, p := range v.O {
+			o.Set(p.K, buildDerived(p.V, every, counter, false))
+		}
+		if !isRoot {
+			*counter++
+			if *counter%every == 0 {
+				d := &DO1{Object: o}
+				d.Init(d)
+				return d
+			}
+		}
+		return o
+	}
+	return Build(v)
 }
 
 func cloneOf(x any) any {
@@ -161,7 +206,14 @@ func CheckC08(c *C08Case, st *Stats) error {
 	if c.Root.K != KList && c.Root.K != KObject {
 		return nil
 	}
-	orig := Build(c.Root)
+	var orig any
+	if c.Derived > 0 {
+		n := 0
+		orig = buildDerived(c.Root, c.Derived, &n, true)
+		st.Count("with_derived_nested")
+	} else {
+		orig = BuildVariant(c.Root, c.Build)
+	}
 	if c.Share {
 		ids := Idents(orig)
 		from, into := ids[c.ShareFrom%len(ids)], ids[c.ShareInto%len(ids)]
@@ -184,9 +236,12 @@ func CheckC08(c *C08Case, st *Stats) error {
 	if p, panicked := catch(func() { clone = cloneOf(orig) }); panicked {
 		return errf("Clone panicked: %v on %s", p, origSnap.Tree.Show())
 	}
-	ab, ba := equalsBoth(clone, orig)
-	if !ab || !ba {
-		return errf("clone does not Equal the original (%v/%v): %s", ab, ba, origSnap.Tree.Show())
+	if c.Derived == 0 {
+		// (Equals is documented to be false for nested derived values, so it is only asserted on plain trees)
+		ab, ba := equalsBoth(clone, orig)
+		if !ab || !ba {
+			return errf("clone does not Equal the original (%v/%v): %s", ab, ba, origSnap.Tree.Show())
+		}
 	}
 	cloneSnap, err := TakeIdentSnap(clone)
 	if err != nil {
